@@ -257,8 +257,8 @@ PROPS["C08"] = dict(
     thorough=[
         R("part", "asan", 16, 81, ["mode=exh"], partition=True),
         R("part", "plain", 16, 66, ["mode=exh4"], partition=True),
-        R("part", "asan", 16, 400, ["mode=rand"], timeout=7200),
-        R("part", "plain", 16, 4000, ["mode=rand"], timeout=7200),
+        R("part", "asan", 16, 150, ["mode=rand"], timeout=7200),
+        R("part", "plain", 16, 1200, ["mode=rand"], timeout=7200),
         R("part", "plain", 8, 8, ["mode=huge"], partition=True),
         R("part", "asan", 2, 2, ["mode=huge"], partition=True),
     ],
@@ -764,7 +764,7 @@ _nd("C04", [R("pss%d" % i, "ndebug", 1, 50, ["mode=serial"]) for i in range(3)],
 _nd("C05", [R("mwm", "ndebug", 4, 20)], [R("mwm", "ndebug", 16, 300, timeout=7200)])
 _nd("C06", [R("pms", "ndebug", 2, 20)], [R("pms", "ndebug", 8, 200, timeout=7200)])
 _nd("C07", [R("pmwm", "ndebug", 3, 100)], [R("pmwm", "ndebug", 8, 1000, timeout=7200)])
-_nd("C08", [R("part", "ndebug", 4, 20, ["mode=rand"])], [R("part", "ndebug", 16, 200, ["mode=rand"], timeout=7200)])
+_nd("C08", [R("part", "ndebug", 4, 20, ["mode=rand"])], [R("part", "ndebug", 16, 100, ["mode=rand"], timeout=7200)])
 _nd("C09", [R("lt", "ndebug", 4, 50)], [R("lt", "ndebug", 16, 1000, timeout=7200)])
 _nd("C10", [R("pool", "ndebug", 4, 50, ["mode=serial"])], [R("pool", "ndebug", 16, 1000, ["mode=serial"], timeout=7200)])
 _nd("C12", [R("cptr", "ndebug", 4, 200, ["mode=seq"]), R("cptr", "ndebug", 4, 40, ["mode=serial"])],
@@ -794,7 +794,7 @@ _v17("C04", [R("pss0", "asan17", 1, 30, ["mode=serial"])], [R("pss%d" % i, "asan
 _v17("C05", [R("mwm", "asan17", 4, 10)], [R("mwm", "asan17", 16, 200, timeout=7200)])
 _v17("C06", [R("pms", "asan17", 3, 12)], [R("pms", "asan17", 8, 150, timeout=7200)])
 _v17("C07", [R("pmwm", "asan17", 3, 50)], [R("pmwm", "asan17", 8, 600, timeout=7200)])
-_v17("C08", [R("part", "asan17", 4, 6, ["mode=rand"])], [R("part", "asan17", 16, 100, ["mode=rand"], timeout=7200)])
+_v17("C08", [R("part", "asan17", 4, 6, ["mode=rand"])], [R("part", "asan17", 16, 40, ["mode=rand"], timeout=7200)])
 _v17("C09", [R("lt", "asan17", 4, 20)], [R("lt", "asan17", 16, 600, timeout=7200)])
 _v17("C10", [R("pool", "asan17", 4, 20, ["mode=serial"])], [R("pool", "asan17", 16, 500, ["mode=serial"], timeout=7200)])
 _v17("C11", [R("sync", "asan17", 4, 40, ["mode=serial"])], [R("sync", "asan17", 16, 800, ["mode=serial"], timeout=7200)])
